@@ -71,6 +71,7 @@ class CrashSuite:
         self.cases = cases
         self.want = want
         self.stats = {"images": 0, "torn_images": 0, "nested_images": 0, "inflight_images": 0}
+        self.known_hits = []
 
     def execute(self, workdir, tag="cr"):
         impl = lib.run_sharded(lib.RVH, "crash", self.cases, workdir, tag + "i",
@@ -134,11 +135,33 @@ class CrashSuite:
                                % (parts[0], lib.trunc(scan2, 300), lib.trunc(exp2, 300)))
                         break
                 if "dir" in self.want and (dir1 != "exact" or dir2 != "exact"):
-                    bad = "crash image %s: directory after recovery is not exactly the needed files: %s / after reopen: %s" % (parts[0], dir1, dir2)
-                    break
+                    if all(d == "exact" or known_dir(d) for d in (dir1, dir2)):
+                        self.known_hits.append(("orphan-newer-manifest", cid, parts[0]))
+                    else:
+                        bad = "crash image %s: directory after recovery is not exactly the needed files: %s / after reopen: %s" % (parts[0], dir1, dir2)
+                        break
             if bad:
                 prop.append({"case": c, "impl": lib.trunc(il, 1500), "spec": lib.trunc(";".join(scans), 800), "model": "", "detail": bad})
         return corr, prop
+
+
+def known_dir(d):
+    """KNOWN FINDING orphan-newer-manifest: the only surplus files are manifests with a number
+    greater than the current manifest's (left by a crash while a new manifest was being written,
+    then the older manifest was reused): remove_obsolete_files only deletes smaller numbers."""
+    import re
+    m = re.fullmatch(r"extra\[([^\]]*)\]missing\[\]cur\[man=(\d+);wal=\d+;live=\d+\]", d)
+    if not m:
+        return False
+    cur = int(m.group(2))
+    names = [x for x in m.group(1).split(";") if x]
+    if not names:
+        return False
+    for nme in names:
+        mm = re.fullmatch(r"MANIFEST-(\d+)\.manifest", nme)
+        if not mm or int(mm.group(1)) <= cur:
+            return False
+    return True
 
 
 def narrow_points(case, detail):
